@@ -644,6 +644,10 @@ func (sel *Selection) Set(v val.Value) error {
 		Write: true,
 		Meta:  m,
 	}
+	if v == nil {
+		// no value is how a leaf is cleared, nodes are never handed a nil value to store
+		r.Clear = true
+	}
 	return sel.set(&r, &ValueHandle{Val: v})
 }
 
